@@ -110,6 +110,14 @@ func main() {
 				record(r)
 				checkDeterminism(r, sum)
 			})
+			// contexts competing for one balance: several independent replays, because a randomised
+			// traversal order coincides with the store order on a fraction of the runs
+			for k := 0; k < 5; k++ {
+				runFixedWith(w, detWitness2(*firstID-2-k), out, true, func(r *Runner) {
+					record(r)
+					checkDeterminism(r, sum)
+				})
+			}
 		}
 		for i := 0; i < *n; i++ {
 			hs := *seed*1000003 + int64(i)
